@@ -9,6 +9,7 @@ MODULES = {
     "C05": "props.c05",
     "C06": "props.c06",
     "C07": "props.c07",
+    "C08": "props.c08",
     "C09": "props.c09",
     "C11": "props.c11",
     "C15": "props.c15",
